@@ -75,7 +75,8 @@ class Reform(TaxBenefitSystem):
             and should return an object of the same type.
 
         """
-        baseline_parameters = self.baseline.parameters
+        # Start from the reform's current parameters, so that successive modifiers accumulate.
+        baseline_parameters = self.parameters
         baseline_parameters_copy = copy.deepcopy(baseline_parameters)
         reform_parameters = modifier_function(baseline_parameters_copy)
         if not isinstance(reform_parameters, ParameterNode):
